@@ -2,7 +2,7 @@
 EXTENDS Import, Json
 AsBuilt == {"unpruned:colorspace"}
 CaseJson == [n |-> N, edges |-> [o \in Src |-> edges[o]], roots |-> roots,
-             resobj |-> [c \in Categories |-> resobj[c]], used |-> used, dev |-> Dev,
+             resobj |-> [c \in Categories |-> resobj[c]], used |-> used, inspected |-> inspected, dev |-> Dev,
              ideal |-> [o \in Src |-> IF o \in Needed THEN 1 ELSE 0],
              mech  |-> [o \in Src |-> copies[o]], mech_copied |-> copied]
 Emit == phase = "done" => PrintT(<<"CASE", ToJson(CaseJson)>>)
